@@ -126,7 +126,68 @@ def _is_float_dtype(dtype):
 
 class _Shim:
     def __getattr__(self, name):
-        return getattr(_np, name)
+        f = getattr(_np, name)
+        if not callable(f) or isinstance(f, type):
+            return f
+
+        def call(*a, **kw):
+            # functions this shim does not model run as real NumPy; a `dtype=int` / `dtype=float` written in instrumented code
+            # is the shadow class there and must be handed over as the builtin - and an integer dtype on symbolic data is
+            # refused, because NumPy would store the proxies untruncated in an object array
+            if 'dtype' in kw and kw['dtype'] is not None:
+                plain = _plain_dtype(kw['dtype'])
+                if _is_int_dtype(plain) and any(has_sym(x) for x in a if not isinstance(x, (str, bytes))):
+                    raise Escape('np.%s(..., dtype=<integer>) on symbolic data is not modelled' % name)
+                kw['dtype'] = plain
+            return f(*a, **kw)
+        call.__name__ = name
+        return call
+
+    def interp(self, x, xp, fp, left=None, right=None, period=None):
+        if not (has_sym(x) or has_sym(xp) or has_sym(fp)):
+            return _np.interp(x, xp, fp, left=left, right=right, period=period)
+        if period is not None:
+            raise Escape('np.interp with a period on symbolic data')
+        xs, fs = list(xp), list(fp)
+        if len(xs) != len(fs) or not xs:
+            raise ValueError('fp and xp are not of the same length')
+
+        def one(v):
+            # documented behaviour for increasing xp: constant outside the range, linear between neighbours
+            if bool(v < xs[0]):
+                return fs[0] if left is None else left
+            if bool(v > xs[-1]):
+                return fs[-1] if right is None else right
+            for i in range(len(xs) - 1):
+                if bool(v <= xs[i + 1]):
+                    if bool(v == xs[i + 1]):
+                        return fs[i + 1]
+                    if bool(v == xs[i]):
+                        return fs[i]
+                    return fs[i] + (fs[i + 1] - fs[i]) * (v - xs[i]) / (xs[i + 1] - xs[i])
+            return fs[-1]
+        if isinstance(x, (list, tuple, _np.ndarray)):
+            out = _np.empty(len(x), dtype=object)
+            for i, v in enumerate(x):
+                out[i] = one(v)
+            return out.view(FArr)
+        return one(x)
+
+    def fromiter(self, iterable, dtype, count=-1, **kw):
+        vals = list(iterable)
+        if count is not None and count >= 0:
+            vals = vals[:count]
+        if _is_int_dtype(dtype):
+            r = _ialloc(len(vals), 0)
+            for i, v in enumerate(vals):
+                r[i] = v
+            return r
+        if _is_float_dtype(dtype):
+            r = _falloc(len(vals), 0.0)
+            for i, v in enumerate(vals):
+                r[i] = v
+            return r
+        return _np.fromiter(vals, dtype=_plain_dtype(dtype), count=len(vals))
 
     def finfo(self, t=float):
         from .proxy import _unshadow
